@@ -23,7 +23,7 @@ META = {
             "bound between grid points, replayed numerically on the real NLP functions and the real refined sample.  Rejection: a non-polynomial body must raise.  distinct by (shape,label)" % REFINE,
     'functions': ['rockit/sampling_method.py:add_inf_constraints', 'rockit/casadi_helpers.py:reinterpret_expr', 'rockit/splines/spline.py:BSplineBasis/BSpline algebra and comparisons',
                   'rockit/multiple_shooting.py, single_shooting.py, direct_collocation.py: call sites', 'rockit/stage.py:_grid_intg_fine (the polynomial being certified)'],
-    'bounds': 'bodies: x_i <= ub, a*x_i + b*x_j >= lb, lb <= inf_der(x_i) <= ub (degree 1); models x\'=u and double integrator (rk exact, collocation degree 4 exact); MS, SS (rk), DC degree 4 radau; N<=3, M<=2 (DC: M=1, numeric T, N=3 with more than one state on the uniform grid only); uniform, local geometric, user and FreeGrid; numeric and free T',
+    'bounds': 'bodies: x_i <= ub, a*x_i + b*x_j >= lb, lb <= inf_der(x_i) <= ub (degree 1; also the same bound on two states), a constant 5-vector of bounds on a scalar state (rejected or sufficient for every entry); models x\'=u and double integrator (rk exact, collocation degree 4 exact); MS, SS (rk), DC degree 4 radau; N<=3, M<=2 (DC: M=1, numeric T, N=3 with the one-state model only); uniform, local geometric, user and FreeGrid; numeric and free T',
     'outside': 'inf_der under DirectCollocation (rounded power-basis tables: exact only up to 1e-15); degree-2 bodies and inf_inert (the direct query is quadratic in the decision vector and nlsat does not finish; the Bernstein hull argument for them is not re-proved here); tightness as M grows; '
                'violations confined to times strictly between refined points',
     'assumptions': ['the refined sample is the scheme polynomial (C08)', 'reals for floats'],
@@ -84,8 +84,8 @@ def instances(tier, seed):
                 for N in Ns[: (1 if tier == 'quick' else 3)] if g[0] != 'function' else ([2] if method == 'DC' else [3]):
                     M = [1, 2][n % 2]
                     h = hz[n % len(hz)]
-                    if method == 'DC' and N == 3 and mi > 0 and g[0] != 'uniform':
-                        continue               # two-state collocation rows over three non-uniform intervals take z3 60-100 s per query (unknown on a loaded machine): N=3 stays on the uniform grid there
+                    if method == 'DC' and N == 3 and mi > 0:
+                        continue               # two-state collocation rows over three intervals take z3 50-100 s per query (unknown under the 60 s cap on a loaded machine): N=3 is explored with the one-state model only
                     if method == 'DC':
                         M = 1                  # with sub-stepping the (linear, 53-bit rational) collocation system exceeds z3's 60 s
                         h = hz[n % 2]          # numeric horizon: every row is linear in the decision vector (with free T z3 does not finish on the collocation rows)
@@ -112,6 +112,16 @@ def instances(tier, seed):
     sz = Spec(nx=1, nu=1, nz=1, ode=[U(0) + Z(0)], alg=[Z(0) - X(0) * 2], note='inf constraint on an algebraic variable')
     sz.cons = [Con('<=', Z(0), Fr(3, 10), grid='inf'), Con('==', at_t0(X(0)), Fr(1, 10))]
     add(kind='sufficiency', spec=fam.with_horizon(sz, hz[0]), cfg=Cfg('DC', N=2, M=1, grid=fam.G_UNI, degree=4, scheme='radau'), reject_ok=True, twin=False)
+    # several grid='inf' constraints whose bodies PRINT alike (every inf_der symbol is called "der"): each needs its own certificate
+    s2 = Spec(nx=2, nu=1, ode=[X(1), U(0)], note='double integrator, the same inf_der rate bound on both states')
+    s2.cons = [Con('<=<=', Fr(-3, 10), Fr(3, 10), mid=inf_der(X(0)), grid='inf'), Con('<=<=', Fr(-3, 10), Fr(3, 10), mid=inf_der(X(1)), grid='inf'), Con('==', at_t0(X(0)), 0)]
+    for method, g_, M_ in (('MS', fam.G_UNI, 2), ('SS', fam.G_GEO_LOC, 1), ('MS', fam.G_GEO_LOC, 1)):
+        add(kind='sufficiency', spec=fam.with_horizon(s2, hz[1]), cfg=Cfg(method, N=2, M=M_, intg='rk', grid=g_, degree=4, scheme='radau'))
+    # a VECTOR of bounds on a scalar state (five of them: as many as there are Bernstein coefficients of a degree-4 step): every bound holds everywhere, or rejected
+    sb = Spec(nx=1, nu=1, ode=[U(0)], note="x'=u, five bounds on the scalar state in one constraint")
+    sb.cons = [Con('<=', X(0), E('cvec', (Fr(1, 5), Fr(5), Fr(4), Fr(3), Fr(2))), grid='inf'), Con('==', at_t0(X(0)), 0), Con('<=<=', -50, 50, mid=U(0))]
+    for method, intg in (('MS', 'rk'), ('DC', None)):
+        add(kind='sufficiency', spec=fam.with_horizon(sb, hz[1]), cfg=Cfg(method, N=2, M=1, intg=intg or 'rk', grid=fam.G_UNI, degree=4, scheme='radau'), reject_ok=True, twin=False)
     # rejection of bodies without a certificate
     for method in ('MS', 'DC'):
         s = Spec(nx=1, nu=1, ode=[U(0)], note='non-polynomial inf body')
